@@ -6,8 +6,7 @@ environment strings, scripted HTTP outcomes, file writes, HAProxy admin behaviou
 implementation's answers (constructed configuration, instant / answer / reaction of every health check,
 policies in force after every step).  Nothing of the watcher's or the accessor's state appears.
 
-* `wholds` (= `coreOk` + `effectOk`, see below) is PROPERTY C20 on the wired fail-safe, and the only thing
-  the judge evaluates:
+* `wholds` (= `coreOk`) is PROPERTY C20 on the wired fail-safe, and the only thing the judge evaluates:
   level 1's `holds` on the health checks (alternation, stability, cool-down) under the configuration the
   ENVIRONMENT states, where the "observed health" of every check is what the predicate must answer for the
   scripted stats and thresholds (`expectedHealthy`, a declarative reading of "unhealthy only on a 200
@@ -188,7 +187,7 @@ def excluded : Ref → Hist → Option Beyond
     | some f => some f
     | none => excluded (refStep r x).1 rest
 
-/-! ### the EFFECT of a reaction (judged)
+/-! ### the EFFECT of a reaction (NOT judged - beyond C20's statement; model theorem `reaction_effect`)
 
 "The fail-safe that drops diagnosis plugins when the link is unhealthy": right after an `unhealthy`
 reaction no diagnosis plugin is in force, right after `healthy again` the last loaded policies are - where
@@ -225,13 +224,10 @@ def effectOk : Eff → Hist → Bool
   | _, [] => true
   | r, x :: rest => (effStep r x).2 && effectOk (effStep r x).1 rest
 
-/-- Property C20 on one wired case whose construction succeeded with `raw`: when the reactions fire
-    (`coreOk`) and that they do what they are for (`effectOk`). -/
-def wholds (raw : RawCfg) (thr : Thr) (p0 : Option Pol) (h : Hist) : Bool :=
-  coreOk raw.toCfg thr h &&
-  match p0 with
-  | some p => effectOk (Eff.init p) h
-  | none => true
+/-- Property C20 on one wired case whose construction succeeded with `raw`: WHEN the reactions fire, for
+    which observed health.  (What a reaction achieves is not part of C20: `effectOk` is a model theorem, the
+    implementation is tied to it by the correspondence diff.) -/
+def wholds (raw : RawCfg) (thr : Thr) (h : Hist) : Bool := coreOk raw.toCfg thr h
 
 /-- Beyond the property: the policies in force follow the reference. -/
 def inForceOk (p0 : Option Pol) (h : Hist) : Bool :=
